@@ -619,9 +619,19 @@ def load_known():
 
 
 def sig_matches(pattern, sig):
-    if pattern.endswith('*'):
-        return sig.startswith(pattern[:-1])
-    return pattern == sig
+    """'*' in a pattern matches any run of characters; everything else is literal."""
+    parts = pattern.split('*')
+    if len(parts) == 1:
+        return pattern == sig
+    if not sig.startswith(parts[0]):
+        return False
+    pos = len(parts[0])
+    for mid in parts[1:-1]:
+        i = sig.find(mid, pos)
+        if i < 0:
+            return False
+        pos = i + len(mid)
+    return sig.endswith(parts[-1]) and len(sig) - len(parts[-1]) >= pos
 
 
 def known_entry(sig, known):
